@@ -340,6 +340,17 @@ def short(lines):
     return [l if len(l) < 90 else l[:70] + '...(%d hex chars)' % (len(l) - 70) for l in lines]
 
 
+def coqchk(chk, mods):
+    """thorough: re-check the compiled property files and everything they depend on with the independent checker"""
+    rc, out, err = vlib.sh(['coqchk', '-silent', '-o', '-Q', '.', 'MirV'] + mods, cwd=vlib.COQDIR, timeout=2400)
+    flat = ' '.join((out + err).split())
+    ok = rc == 0 and '* Axioms: <none>' in flat
+    chk.cov['trusted_base'].append('coqchk -o on %s: %s' % (' '.join(mods), 'no axioms, no assumed positivity/guard/type-in-type' if ok
+                                                             else 'FAILED rc=%d %s' % (rc, flat[-300:])))
+    chk.log('coqchk: %s' % ('ok, Axioms: <none>' if ok else 'FAILED'))
+    return ok
+
+
 def run(chk):
     quick = chk.tier == 'quick'
     sites = tr_c17_sites.generate()
@@ -407,6 +418,9 @@ def run(chk):
     nbad = ch_correspond(chk, impl, model, 150 if quick else 20000)
     if nbad:
         seen_sigs['codeholder'] = None
+    if not quick and r1['ok'] and r2['ok'] and not coqchk(chk, ['MirV.Properties_C17', 'MirV.Properties_C17_Sites']):
+        r1['ok'] = False
+        r1['log'] += '\ncoqchk failed'
     broken = [r for r in (r1, r2) if not r['ok']]
     if broken and not seen_sigs:
         extra = ''
